@@ -240,7 +240,8 @@ def programs(ctx: Ctx):
     return tasks
 
 
-def differential(ctx: Ctx) -> None:
+def warm_caches(ctx: Ctx) -> str:
+    """One incremental cache per (front end, target version) with typeshed's core in it; copied per worker."""
     base = os.path.join(ctx.tmp, "cache")
     os.makedirs(base, exist_ok=True)
     t0 = time.time()
@@ -249,6 +250,11 @@ def differential(ctx: Ctx) -> None:
         if st != "ok" or msgs:
             raise ToolFailure("could not warm the cache for %s %s: %s %s" % ("native" if native else "default", ver, st, msgs[:3]))
     ctx.coverage["warm_s"] = round(time.time() - t0, 1)
+    return base
+
+
+def differential(ctx: Ctx, base: str) -> None:
+    t0 = time.time()
     tasks = programs(ctx)
     work = [(i, src, ver, None) for i, (key, src, ver, origin) in enumerate(tasks)]
     res = pool.run_tasks("run_pair", work, base, died=lambda t: (t[0], ("died", []), ("died", [])))
@@ -291,11 +297,12 @@ def main(ctx: Ctx) -> None:
                "the differential compares a (program, version) pair only through printed diagnostics and blocking status; "
                "for two blocked runs only the status is compared (the two front ends word syntax errors differently)",
                "columns are compared with the line length in UTF-8 bytes or characters, whichever is larger (the property does not fix the unit)")
+    base = warm_caches(ctx)
     tie_clamp(ctx)
     tie_signatures(ctx)
     tie_tags(ctx)
     tie_cfg(ctx)
-    differential(ctx)
+    differential(ctx, base)
     if not proved and not ctx.violations:
         ctx.violation("Lean development for C14 no longer builds", {"broken": ctx.broken_ties}, found_input=False)
 
